@@ -180,6 +180,13 @@ fn real_main(args: &[String]) -> i32 {
             watchdog();
             engine::on_big_stack(move || dispatch!(id.as_str(), P => engine::exec_case::<P>(&path)))
         }
+        "minimise" => {
+            let id = args[2].clone();
+            let inp = PathBuf::from(&args[3]);
+            let outp = PathBuf::from(&args[4]);
+            watchdog();
+            engine::on_big_stack(move || dispatch!(id.as_str(), P => engine::minimise_main::<P>(&inp, &outp)))
+        }
         "replay" => {
             let path = Path::new(&args[2]);
             let txt = match std::fs::read_to_string(path) {
